@@ -118,9 +118,33 @@ def run(ctx, replay=None):
                             sig_sparse = {'what': 'clustering-depends-on-order-of-distances', 'method': case['bin_func']}
                     except Exception:
                         pass
+            if case['bin_func'] == 'ward':
+                vc.ward_reference(ctx, case, B, tb[0], case['maxlag'])
             compare(ctx, case, 'shared MetricSpace used twice', tb, tb2, {'what': 'shared-metricspace'})
             ok1 = compare(ctx, case, 'raw coordinates with absolute maxlag (sparse) vs dense MetricSpace', ta, tb, sig_sparse)
             compare(ctx, case, 'pre-computed truncated MetricSpace vs dense MetricSpace', tc, tb, sig_sparse)
+            # ---- history on the shared space: a second variogram changes ITS metric; the first one, recalculated, and a new
+            # variogram on the same space still see the space's own distances
+            if case['bin_func'] in ('even', 'uniform') and rng.random() < 0.5:
+                try:
+                    other = rng.choice(['cityblock', 'chebyshev'])
+                    for space, label in ((ms, 'dense'), (msd, 'truncated')):
+                        P = Variogram(space, v, **kw)
+                        Q = Variogram(space, v + 1.0, **kw)
+                        before = triple(P)
+                        Q.set_dist_function(other)
+                        _ = Q.experimental
+                        nl = P.n_lags
+                        P.n_lags = nl + 1
+                        _ = P.experimental
+                        P.n_lags = nl
+                        after = triple(P)
+                        compare(ctx, case, 'another variogram on the shared %s MetricSpace changed its metric; this one recalculated' % label, before, after, {'what': 'shared-metricspace-history', 'space': label})
+                        R = Variogram(space, v, **kw)
+                        compare(ctx, case, 'a new variogram on the shared %s MetricSpace after another one changed its metric' % label, before, triple(R), {'what': 'shared-metricspace-history', 'space': label})
+                    ctx.tests['shared_space_histories'] = ctx.tests.get('shared_space_histories', 0) + 1
+                except Exception as e:
+                    ctx.problem('oracle', 'a history on a shared MetricSpace raises %s: %s' % (type(e).__name__, str(e)[:80]), case, None, {'what': 'shared-metricspace-history-raises'})
             ctx.case_done(case, sum(1 for k in tb[1] if k > 0) >= 2)
         vc.run_golden(ctx, coq, model)
     finally:
